@@ -520,6 +520,34 @@ func C20(p *ir.Program, r *report.R) {
 			r.Check("K2", "evm.(*Interpreter).Run/unpaid-fee-popped", p.InstrPos(in), !found, d)
 		})
 		r.Check("K2", "evm.(*Interpreter).Run/unpaid-fee-popped/sites", p.Pos(run.Pos()), n >= 2, fmt.Sprintf("%d failure paths with a saved fee (gas function error, UseGas false)", n))
+		// the flag says "THIS operation saved a fee": it is lowered at the start of every operation. The flag
+		// lives on the EVM and is raised inside the loop by the gas functions; lowered once per frame it stays
+		// up for every later operation of the frame, and an ordinary out-of-gas pops a fee list that is empty.
+		{
+			okReset := false
+			where := p.Pos(run.Pos())
+			for _, st := range p.Stores(p.Field("vm/evm", "EVM.feeSaved")) {
+				if st.Fn != run || ir.Render(st.Val) != "false" {
+					continue
+				}
+				where = p.InstrPos(st.Instr)
+				for _, l := range ir.Loops(run) {
+					if !l.Body[st.Instr.Block()] {
+						continue
+					}
+					// every iteration passes the reset before it reads the flag
+					reads := func(in ssa.Instruction) bool {
+						ifi, ok := in.(*ssa.If)
+						return ok && ir.Render(ifi.Cond) == "in.evm.feeSaved"
+					}
+					found, _, _ := ir.FindPath(ir.PathQuery{From: ir.Point{B: l.Header, I: -1}, Target: reads, Avoid: func(in ssa.Instruction) bool { return in == st.Instr }})
+					if !found {
+						okReset = true
+					}
+				}
+			}
+			r.Check("K2", "evm.(*Interpreter).Run/fee-flag-lowered-per-operation", where, okReset, "in.evm.feeSaved = false sits inside the interpreter loop and precedes every read of the flag in the iteration")
+		}
 		// what is re-appended is what the remaining gas covered beyond the op's own cost
 		for _, st := range p.Stores(p.Field("vm/evm", "EVM.fees")) {
 			if st.Fn != run || st.Kind != "store" {
